@@ -123,14 +123,14 @@ def judge_block(index, seed, tree, tier):
                 f"permuting the contributions changes the behaviour: exit {behaviour[0]} here, exit "
                 f"{reference_behaviour[0]} for the first permutation", orders[number], key,
                 {"stdout": behaviour[1].decode("utf8", "replace")[-300:]})
+    # acceptance and behaviour must not depend on the hash key either (the bytes of a diagnostic
+    # are C16's concern: the same generated programs are part of C16's corpus)
     by_order = {}
     for number, key, verdict, behaviour, err in observations:
-        first = by_order.setdefault(number, (key, verdict, behaviour, err))
-        if (verdict, behaviour, err) != first[1:]:
-            return stats, violation("the same permutation gives different output under another hash key",
-                                    orders[number], key,
-                                    {"key_a": str(first[0]), "stderr_a": first[3].decode("utf8", "replace")[-600:],
-                                     "stderr_b": err.decode("utf8", "replace")[-600:]})
+        first = by_order.setdefault(number, (key, verdict, behaviour))
+        if (verdict, behaviour) != first[1:]:
+            return stats, violation("the same permutation is accepted / behaves differently under another hash key",
+                                    orders[number], key, {"key_a": str(first[0])})
     return stats, None
 
 
@@ -162,12 +162,12 @@ def replay_block(path):
         status, out, err = run_under_seam([ZYDECO, "run", file], key, cwd=tree, timeout=20)
         if status != payload["expected_exit"]:
             problem = f"run exits with {status}, expected {payload['expected_exit']}"
-    if problem is None and "different output under another hash key" in payload["message"]:
+    if problem is None and "under another hash key" in payload["message"]:
         other = int(payload["detail"]["key_a"])
         a = run_under_seam([ZYDECO, "check", file], other, cwd=tree, timeout=20)
         b = run_under_seam([ZYDECO, "check", file], key, cwd=tree, timeout=20)
-        if a != b:
-            problem = "output differs between the two recorded keys"
+        if classify(a[0], a[2]) != classify(b[0], b[2]):
+            problem = "acceptance differs between the two recorded keys"
     if problem:
         log(f"REPRODUCED property=C08 {problem}")
         return 1
